@@ -42,7 +42,7 @@ def run_checks(wt):
 def main():
     pid = sys.argv[1]
     rnd = sys.argv[sys.argv.index("--round") + 1] if "--round" in sys.argv else "3"   # 3: first benign round (ids -b<i>), 5: second (ids -c<i>)
-    tagc = {"3": "b", "5": "c", "6": "d", "8": "e", "0": "f"}.get(rnd, "x")
+    tagc = {"3": "b", "5": "c", "6": "d", "8": "e", "0": "f", "1": "g"}.get(rnd, "x")
     out_dir, wt = f"/tmp/out{rnd}_{pid}", f"/tmp/wt{rnd}_{pid}"
     head = sh("git -C /repo rev-parse HEAD").stdout.strip()
     sh(f"git -C {wt} checkout -q -- . && git -C {wt} checkout -q --detach {head}")
